@@ -4,7 +4,7 @@ import dv, ls_common, re
 SITES = ['start', 'fut.run.cas', 'h.func', 'ce.notify.store', 'futex.wake', 'fut.run.tsc', 'fut.chain.load', 'fut.chain.cas',
          'h.dispatch', 'fut.decRef', 'fut.waitCommon.load', 'ce.wait.load', 'futex.wait', 'futex.woken', 'futex.timeout',
          'ce.waitFor.load0', 'ce.waitFor.load', 'ce.waitUntil.load', 'fut.get.result', 'fut.ready.load', 'fut.incRef',
-         'fut.then.load0', 'fut.then.loadhead', 'fut.then.cas', 'fut.then.recheck', 'h.ts.load']
+         'fut.then.load0', 'fut.then.loadhead', 'fut.then.cas', 'fut.then.recheck', 'h.ts.load', 'futex.spurious']
 TAGS = {'wait': 1, 'get': 2, 'getx': 3, 'waitfor': 4, 'ready': 5, 'func': 6, 'disp': 7, 'dealloc': 8, 'tswait': 9}
 MODES = {'ls': 0, 'im': 1, 'nt': 2}
 
@@ -87,7 +87,7 @@ def term_of(c, p):
     ds = dv.coq_list(['(%d,%d,%s)' % (t['h0'], t['tok'], dv.coq_list([op_coq(o) for o in t['prog']])) for t in c['ths']])
     res = dv.coq_list([ls_common.zpairs(p['results'].get(t, [])) for t in range(n)])
     return '(FC %d %s %s %d%%nat %s %s %s %d %s %s %s)' % (
-        MODES[c['mode']], cfg, ds, ls_common.fuel_of(c['budget'], p['status']), dv.coq_list([str(x) for x in c['sched']]),
+        c.get('judge_mode', MODES[c['mode']]), cfg, ds, ls_common.fuel_of(c['budget'], p['status']), dv.coq_list([str(x) for x in c['sched']]),
         ls_common.zpairs(p['steps']), res, p['status'], m.group(1), m.group(2), dv.coq_list(conts))
 
 
